@@ -78,6 +78,9 @@ func c17Start(root string, which int) {
 	if which != 2 {
 		os.Symlink("a", filepath.Join(root, "l"))
 	}
+	// a symbolic link to a deeper directory: "ld/.." is d for the host, the root for a lexical clean-up
+	os.Mkdir(filepath.Join(root, "d", "dd"), 0o755)
+	os.Symlink("d/dd", filepath.Join(root, "ld"))
 	if which == 1 {
 		os.Mkdir(filepath.Join(root, "e"), 0o755)
 		os.WriteFile(filepath.Join(root, "ro"), []byte("readonly"), 0o400)
@@ -107,6 +110,11 @@ func c17Alphabet(dotu bool) []mop {
 				none(mop{Kind: "symlink", Dir: dir, Name: "b", Ext: "a", Perm: go9p.DMSYMLINK | 0777}))
 			a = append(a, none(mop{Kind: "link", Dir: dir, Name: "hl", Target: "a", Perm: go9p.DMLINK | 0644}), none(mop{Kind: "link", Dir: dir, Name: "b", Target: "a", Perm: go9p.DMLINK | 0644}))
 		}
+	}
+	// through a symbolic link to a directory and back up
+	a = append(a, none(mop{Kind: "create", Dir: "ld/..", Name: "n", Perm: 0644, Mode: 1}), none(mop{Kind: "mkdir", Dir: "ld/..", Name: "nd", Perm: go9p.DMDIR | 0750}))
+	if dotu {
+		a = append(a, none(mop{Kind: "symlink", Dir: "ld/..", Name: "sl", Ext: "c", Perm: go9p.DMSYMLINK | 0777}), none(mop{Kind: "link", Dir: "ld/..", Name: "hl", Target: "a", Perm: go9p.DMLINK | 0644}))
 	}
 	for _, t := range []string{"a", "d/c"} {
 		for _, off := range []int{0, 2, 4, 9} {
@@ -156,7 +164,16 @@ func c17Alphabet(dotu bool) []mop {
 
 // twin applies the corresponding POSIX operation.
 func (o mop) twin(root string) error {
-	p := func(rel ...string) string { return filepath.Join(append([]string{root}, rel...)...) }
+	// plain concatenation: the host resolves '..' and symbolic links, not a lexical clean-up
+	p := func(rel ...string) string {
+		out := root
+		for _, r := range rel {
+			if r != "" {
+				out += "/" + r
+			}
+		}
+		return out
+	}
 	uflags := func(m uint8) int {
 		f := map[uint8]int{0: os.O_RDONLY, 1: os.O_WRONLY, 2: os.O_RDWR, 3: os.O_RDONLY}[m&3]
 		if m&16 != 0 {
@@ -287,6 +304,10 @@ func (o mop) run9p(cl *Cli, dotu bool, tag *uint16) (reply *wire.Msg, follow str
 		if r == nil || r.Type != wire.Rwalk {
 			return r, ""
 		}
+		if len(r.Wqid) != len(split(o.Dir)) {
+			// the directory does not resolve (a partial walk binds nothing): the same failure as ENOENT on the host
+			return &wire.Msg{Type: wire.Rerror, Ename: "file not found", Errno: uint32(syscall.ENOENT)}, ""
+		}
 		ext := o.Ext
 		if o.Kind == "link" {
 			rt := cl.Rpc(twalk(nt(), 0, 2, split(o.Target)...))
@@ -403,7 +424,7 @@ func c17Run(start int, dotu bool, hist []mop) (viol *Viol, state string) {
 			ok := r.Type != wire.Rerror
 			walkFailed := !ok && (r.Ename == "walk failed" || r.Ename == "link target missing")
 			var terr error
-			ambiguous := o.Kind == "create" && func() bool { _, e := os.Lstat(filepath.Join(rootB, o.Dir, o.Name)); return e == nil }()
+			ambiguous := o.Kind == "create" && func() bool { _, e := os.Lstat(rootB + "/" + o.Dir + "/" + o.Name); return e == nil }()
 			if ok || !(ambiguous || walkFailed) {
 				terr = o.twin(rootB)
 			}
@@ -546,7 +567,7 @@ func c17Scenarios(tier string) []Scenario {
 func init() {
 	register(&Property{ID: "C17", Level: "model_checking",
 		Technique: "explicit-state breadth-first search over mutation sequences with a POSIX twin as reference model; every transition executed on the real Ufs (fresh trees, replay of the sequence) and the trees compared",
-		Rule:      "alphabet of ~85 (.u ~100) mutations over the namespace {a, b, d/, d/c, l->a}: Tcreate of files (4 perm/mode pairs incl. OTRUNC) on free and occupied names in two directories, directories, symlinks with existing and dangling targets, hard links, Twrite at offsets 0/mid/end/beyond, Topen with OTRUNC, Tremove of file / empty and non-empty directory / symlink / missing, Twstat rename to free/occupied/same names, lengths 0/shorter/equal/longer, modes 0/0400/0777, mtime, and four multi-field wstats; BFS to depth 2 (thorough 3, three start trees) with states deduplicated on a canonical snapshot (names, kinds, permission bits, contents, link targets, hard-link groups, explicitly set mtimes); the same operation is applied with package os to a twin tree. states = distinct tree snapshots, transitions = sequences executed",
+		Rule:      "alphabet of ~85 (.u ~100) mutations over the namespace {a, b, d/, d/c, d/dd/, l->a, ld->d/dd}: Tcreate of files (4 perm/mode pairs incl. OTRUNC) on free and occupied names in two directories and in 'ld/..' (through a symbolic link to a directory and back up), directories, symlinks with existing and dangling targets, hard links, Twrite at offsets 0/mid/end/beyond, Topen with OTRUNC, Tremove of file / empty and non-empty directory / symlink / missing, Twstat rename to free/occupied/same names, lengths 0/shorter/equal/longer, modes 0/0400/0777, mtime, and four multi-field wstats; BFS to depth 2 (thorough 3, three start trees) with states deduplicated on a canonical snapshot (names, kinds, permission bits, contents, link targets, hard-link groups, explicitly set mtimes); the same operation is applied with package os to a twin tree. states = distinct tree snapshots, transitions = sequences executed",
 		Assumptions: []string{"the host file system and package os are the reference", "creating an existing name may be refused or treated like O_CREAT without O_EXCL (either is accepted if the tree matches)", "runs as the sandbox user (root): permission denials are not exercised"},
 		Scenarios:   c17Scenarios, QuickS: 110, ThoroughS: 1500})
 }
